@@ -770,8 +770,10 @@ func (e *Engine) invokeModset(u *Unit, c *ssa.CallCommon) *modset {
 // ---------------------------------------------------------------------------------------------
 
 type VerifyOpts struct {
-	Frame     bool // emit frame obligations even without an `assigns nothing` clause
-	SweepOnly bool // ignore functional clauses, only safety
+	Frame     bool     // emit frame obligations even without an `assigns nothing` clause
+	SweepOnly bool     // ignore functional clauses, only safety
+	NoInv     bool     // do not assume declared type invariants / nonnil declarations
+	SkipInv   []string // type names whose invariants are not assumed
 }
 
 func (e *Engine) newUnit(fn *ssa.Function) *Unit {
@@ -825,6 +827,11 @@ func (e *Engine) verify(fn *ssa.Function, opts VerifyOpts) (u *Unit) {
 		u.arithChecked = ct.Arith
 	}
 	u.quantOK = ct != nil && !opts.SweepOnly
+	u.noInv = opts.NoInv
+	u.skipInv = map[string]bool{}
+	for _, t := range opts.SkipInv {
+		u.skipInv[t] = true
+	}
 	st := &State{pc: "true", heap: map[string]string{}, ghost: map[string]string{}}
 	now0 := quote("now0")
 	u.w.declFun(now0, nil, "Int")
@@ -879,7 +886,9 @@ func (e *Engine) verify(fn *ssa.Function, opts VerifyOpts) (u *Unit) {
 	if !opts.SweepOnly {
 		if ct != nil && ct.HasAssigns && !ct.NoFrame {
 			u.checkFrame = true
-			if len(ct.Assigns) > 0 {
+			if len(ct.Assigns) > 0 && !(opts.Frame && !ct.FrameCaller) {
+				// in frame mode the declared assigns only excuse writes when the memory is the caller's
+				// (framecaller); otherwise this unit itself answers for writes to pre-existing memory
 				fr.setupAssignable(ct, st)
 			}
 		}
@@ -1099,7 +1108,7 @@ func (fr *Frame) applyContract(ct *Contract, callee *ssa.Function, recv *Val, ar
 				for _, f := range u.wfFacts(st, nv, fv.Type(), 0) {
 					u.fact(f)
 				}
-				if u.checkFrame {
+				if u.checkFrame && !(u.frameMode && u.eng.frameSet[key] && !ct.FrameCaller) {
 					fr.frameCheckRef(st, ad.Ref, "assigns."+shortKey(key), pos)
 				}
 				u.storeAddr(st, &nad, nv)
@@ -1114,7 +1123,7 @@ func (fr *Frame) applyContract(ct *Contract, callee *ssa.Function, recv *Val, ar
 				for _, f := range u.wfFacts(st, nv, pt.Elem(), 0) {
 					u.fact(f)
 				}
-				if u.checkFrame {
+				if u.checkFrame && !(u.frameMode && u.eng.frameSet[key] && !ct.FrameCaller) {
 					fr.frameCheckRef(st, ad.Ref, "assigns."+shortKey(key), pos)
 				}
 				u.storeAddr(st, ad, nv)
@@ -1124,7 +1133,7 @@ func (fr *Frame) applyContract(ct *Contract, callee *ssa.Function, recv *Val, ar
 				if !ok {
 					evalFail("assigns: unsupported location %q", a.src)
 				}
-				if u.checkFrame {
+				if u.checkFrame && !(u.frameMode && u.eng.frameSet[key] && !ct.FrameCaller) {
 					fr.frameCheckRef(st, bv.T, "assigns."+shortKey(key), pos)
 				}
 				kd, kv, kl := u.regM(mt)
